@@ -371,6 +371,13 @@ def collect(repo):
             st = tr.sites[s]
             F.default_arg_writes.append((m, qual, p, st['file'], st['line'], st['what']))
     F.public = sorted(info)
+    # in-place modification of a (raster / array / list) ARGUMENT by a raster function, outside the documented
+    # exceptions (C10's static verdict): the next call that is handed the same objects would see other values
+    F.argument_writes = []
+    for p in ir.static_verdicts(tr, info):
+        if 'site' in p:
+            st = p['site']
+            F.argument_writes.append((p['func'], p.get('param', ''), st['file'], st['line'], st['what']))
     return F
 
 
@@ -450,6 +457,9 @@ def facts(repo):
     lst('default_arg_writes', 'string * string * string * Z * string',
         ['(%s, %s, %s, %d, %s)' % (coq_str(m), coq_str(q), coq_str(p), l, coq_str(x)) for m, q, p, _f, l, x in F.default_arg_writes],
         'in-place modifications (through any alias, any callee: C10 effect IR) of a mutable default argument')
+    lst('argument_writes', 'string * string * string * Z * string',
+        ['(%s, %s, %s, %d, %s)' % (coq_str(f), coq_str(p), coq_str(fl), l, coq_str(x)) for f, p, fl, l, x in F.argument_writes],
+        'in-place modifications of an argument by a public raster function outside the documented exceptions (C10 effect IR)')
     lst('global_rebinds', 'string * string * Z * string',
         ['(%s, %s, %d, %s)' % (coq_str(m), coq_str(q), l, coq_str(x)) for m, q, l, x in F.global_rebinds],
         'global / nonlocal statements')
@@ -615,6 +625,14 @@ def catalogue():
     add('pathfinding.a_star_search', dtype='float64', barriers=[0])
     add('pathfinding.a_star_search', dtype='float64')
     add('bump.bump')
+    # 3-D values, category (layer) dimension first, C-contiguous, zones not sorted: every layer row is re-ordered by zone
+    add('zonal.crosstab', dtype='float64', stack3=True, agg='sum')
+    add('zonal.crosstab', dtype='int32', stack3=True, layer=0, agg='mean')
+    # big rasters (>= 512*512 cells): only drawn by search() when a parallel / prange obligation broke
+    add('focal.apply', dtype='float64', kernel='cross3', shape=[600, 700], big=True)
+    add('focal.focal_stats', dtype='float64', kernel='cross3', shape=[600, 700], stats_funcs=['mean', 'max'], big=True)
+    add('focal.hotspots', dtype='float64', kernel='cross3', shape=[600, 700], big=True)
+    add('convolution.convolution_2d', dtype='float64', kernel='cross3', shape=[600, 700], big=True)
     for i, d in enumerate(C):
         d['id'] = i
     return C
@@ -629,18 +647,27 @@ def _kernel(name):
     raise ValueError(name)
 
 
-def execute(d):
-    """run one catalogue call in this process -> (digest, short description)"""
-    import contextlib
-    import importlib
-    import io
-    import warnings
+def _stack3(seed, dtype, shape):
     import numpy as np
-    warnings.filterwarnings('ignore')
+    import xarray as xr
+    rng = random.Random(seed)
+    h, w = shape
+    a = np.array([[[rng.randint(0, 4) for c in range(w)] for r in range(h)] for _l in range(3)], dtype=dtype)
+    return xr.DataArray(a, dims=['layer', 'y', 'x'], name='v',
+                        coords={'layer': np.array([10, 20, 30]), 'y': np.arange(h, dtype='float64')[::-1] * 2.0,
+                                'x': np.arange(w, dtype='float64') * 2.0}, attrs={'res': (2.0, 2.0)})
+
+
+def prepare(d):
+    """build the function and its argument objects for one catalogue call -> (f, args, kwargs)"""
+    import importlib
+    import numpy as np
     fn = d['fn']
     modname, fname = fn.rsplit('.', 1)
     f = getattr(importlib.import_module('xrspatial.' + modname), fname)
     kw = dict(d['kw'])
+    kw.pop('big', None)
+    stack3 = kw.pop('stack3', False)
     shape = tuple(d['shape'])
     be, dt, seed = d['backend'], d['dtype'], d['seed']
     for k in list(kw):
@@ -656,26 +683,56 @@ def execute(d):
         kw['values'] = tuple(kw['values'])
     if 'zones_ids' in kw:
         kw['zones_ids'] = tuple(kw['zones_ids'])
+    if fn == 'bump.bump':
+        return f, (12, 10), dict(count=8, spread=2)
+    if fn == 'zonal.crosstab' and stack3:
+        return f, (_raster(seed, 'int32' if dt.startswith('float') else dt, be, shape, 'zones'), _stack3(seed + 1, dt, shape)), kw
+    if fn in ('zonal.stats', 'zonal.crosstab', 'zonal.crop'):
+        return f, (_raster(seed, dt, be, shape, 'zones'), _raster(seed + 1, dt, be, shape)), kw
+    if fn.startswith('multispectral.'):
+        n = {'ndvi': 2, 'evi': 3, 'true_color': 3}[fname]
+        return f, tuple(_raster(seed + i, dt, be, shape) for i in range(n)), kw
+    if fn == 'viewshed.viewshed':
+        return f, (_raster(seed, dt, be, shape, 'terrain'),), kw
+    if fn == 'pathfinding.a_star_search':
+        return f, (_raster(seed, dt, be, shape), (10.0, 0.0), (0.0, 12.0)), kw
+    return f, (_raster(seed, dt, be, shape),), kw
+
+
+def call_prepared(f, args, kw):
+    import contextlib
+    import io
+    import warnings
+    warnings.filterwarnings('ignore')
     try:
         with contextlib.redirect_stdout(io.StringIO()), contextlib.redirect_stderr(io.StringIO()):
-            if fn == 'bump.bump':
-                res = f(12, 10, count=8, spread=2)
-            elif fn in ('zonal.stats', 'zonal.crosstab'):
-                res = f(_raster(seed, dt, be, shape, 'zones'), _raster(seed + 1, dt, be, shape), **kw)
-            elif fn == 'zonal.crop':
-                res = f(_raster(seed, dt, be, shape, 'zones'), _raster(seed + 1, dt, be, shape), **kw)
-            elif fn.startswith('multispectral.'):
-                n = {'ndvi': 2, 'evi': 3, 'true_color': 3}[fname]
-                res = f(*[_raster(seed + i, dt, be, shape) for i in range(n)], **kw)
-            elif fn == 'viewshed.viewshed':
-                res = f(_raster(seed, dt, be, shape, 'terrain'), **kw)
-            elif fn == 'pathfinding.a_star_search':
-                res = f(_raster(seed, dt, be, shape), (10.0, 0.0), (0.0, 12.0), **kw)
-            else:
-                res = f(_raster(seed, dt, be, shape), **kw)
+            res = f(*args, **kw)
         return digest(res)
     except Exception as e:
         return 'ERR:%s' % type(e).__name__, '%s: %s' % (type(e).__name__, str(e)[:80])
+
+
+def args_digest(args, kw):
+    """values, coordinates, attrs and name of every raster argument, plus the plain arguments"""
+    import xarray as xr
+    parts = []
+    for a in list(args) + [kw[k] for k in sorted(kw)]:
+        if isinstance(a, xr.DataArray):
+            parts.append(digest([a, {k: v.values for k, v in a.coords.items()}.__repr__(), repr(sorted(a.attrs.items())), a.name])[0])
+        elif callable(a):
+            parts.append('callable')
+        else:
+            parts.append(digest(a)[0])
+    return '|'.join(parts)
+
+
+def execute(d):
+    """run one catalogue call in this process on freshly built arguments -> (digest, short description)"""
+    try:
+        f, args, kw = prepare(d)
+    except Exception as e:
+        return 'ERR:prepare:%s' % type(e).__name__, str(e)[:80]
+    return call_prepared(f, args, kw)
 
 
 def digest(res):
@@ -733,12 +790,19 @@ def worker_main():
         pass
     out = []
     for d in req['calls']:
-        r1 = execute(d)
+        try:
+            f, args, kw = prepare(d)
+        except Exception as e:
+            out.append(['ERR:prepare:%s' % type(e).__name__, None, str(e)[:80], False])
+            continue
+        a0 = args_digest(args, kw)
+        r1 = call_prepared(f, args, kw)
         if req.get('twice'):
-            r2 = execute(d)
-            out.append([r1[0], r2[0], r1[1]])
+            # "repeating any call": the very same argument objects are passed again
+            r2 = call_prepared(f, args, kw)
+            out.append([r1[0], r2[0], r1[1], args_digest(args, kw) != a0])
         else:
-            out.append([r1[0], None, r1[1]])
+            out.append([r1[0], None, r1[1], args_digest(args, kw) != a0])
     sys.stdout.write('\n@@RESULT@@' + json.dumps(out) + '\n')
 
 
@@ -764,10 +828,11 @@ ALTERNATE = ['experimental.polygonize.polygonize', 'zonal.regions', 'zonal.trim'
 def gen_sequence(rng, cat, n):
     """n catalogue indices; type-alternation triples (int -> float -> int) for the type-specialised functions"""
     by_fn = {}
-    for d in cat:
+    for d in [x for x in cat if not x['kw'].get('big')]:
         by_fn.setdefault(d['fn'], []).append(d['id'])
     seq = []
     heavy = [d['id'] for d in cat if d['fn'].startswith('proximity.')]
+    small = [d['id'] for d in cat if not d['kw'].get('big')]
     while len(seq) < n:
         u = rng.random()
         if u < 0.3:
@@ -787,7 +852,7 @@ def gen_sequence(rng, cat, n):
                 a, b = rng.sample(ids, 2)
                 seq += [a, b, a]
                 continue
-        seq.append(rng.randrange(len(cat)))
+        seq.append(rng.choice(small))
     seq = seq[:n]
     # keep the number of proximity-family calls (each re-JITs its closure, ~1 s) bounded
     cnt = 0
@@ -795,7 +860,7 @@ def gen_sequence(rng, cat, n):
         if x in heavy:
             cnt += 1
             if cnt > max(4, n // 4):
-                seq[i] = rng.choice([d['id'] for d in cat if d['id'] not in heavy])
+                seq[i] = rng.choice([j for j in small if j not in heavy])
     return seq
 
 
@@ -810,6 +875,9 @@ def static_part(ctx, repo):
         probs.append('module_writes: %s.py:%d in %s: %s' % (m, l, q, w))
     for (m, q, p, f, l, w) in F.default_arg_writes:
         probs.append('default_arg_writes: mutable default `%s` of %s.%s may be modified at %s:%d (%s)' % (p, m, q, f, l, w))
+    for (f, p, fl, l, w) in F.argument_writes:
+        probs.append('argument_writes: %s may modify its argument `%s` in place at %s:%d (%s): repeating the call on the same '
+                     'objects passes other values' % (f, p, fl, l, w))
     for (m, q, l, n) in F.global_rebinds:
         probs.append('global_rebinds: %s.py:%d in %s: global %s' % (m, l, q, n))
     for (m, q, l, w) in F.func_attr_writes:
@@ -864,7 +932,9 @@ def run_sequences(ctx, seqs, threads_list, baseline_ids=None):
             r = res.get(('seq', si, t))
             if r is None:
                 continue
-            for pos, (i, (d1, d2, descr)) in enumerate(zip(s, r)):
+            for pos, (i, rr) in enumerate(zip(s, r)):
+                d1, d2, descr = rr[0], rr[1], rr[2]
+                args_changed = bool(rr[3]) if len(rr) > 3 else False
                 d = cat[i]
                 case = dict(kind='sequence-position', sequence=[cat[j] for j in s[:pos + 1]], position=pos, threads=t, call=d)
                 ctx.case(dict(call=d['id'], fn=d['fn'], position=pos, threads=t, seq=si))
@@ -874,8 +944,10 @@ def run_sequences(ctx, seqs, threads_list, baseline_ids=None):
                 key = 'bump-unseeded-global-rng' if bump else None
                 what_call = '%s(%s, %s, %s)' % (d['fn'], d['backend'], d['dtype'], json.dumps(d['kw'], sort_keys=True))
                 if d1 != d2:
-                    ctx.violation('oracle', 'repeating %s immediately gives a different result (%s vs %s) at position %d of the '
-                                            'sequence, %d threads' % (what_call, d1, d2, pos, t), case, key=key)
+                    ctx.violation('oracle', 'repeating %s immediately (same argument objects) gives a different result (%s vs %s) '
+                                            'at position %d of the sequence, %d threads%s' % (
+                                                what_call, d1, d2, pos, t,
+                                                '; the call changed its own arguments' if args_changed else ''), case, key=key)
                 if i in fresh:
                     ctx.traces += 1
                     if fresh[i][0] != d1:
@@ -903,7 +975,8 @@ def run(ctx):
     # make sure bump (documented unseeded generator) and a seeded generator after it are in every run
     bump = [d['id'] for d in cat if d['fn'] == 'bump.bump'][0]
     perl = [d['id'] for d in cat if d['fn'] == 'perlin.perlin'][0]
-    seqs[0] = seqs[0][:len(seqs[0]) - 3] + [perl, bump, perl]
+    xt3 = [d['id'] for d in cat if d['fn'] == 'zonal.crosstab' and d['kw'].get('stack3')]
+    seqs[0] = seqs[0][:len(seqs[0]) - 5] + [perl, bump, perl] + xt3
     run_sequences(ctx, seqs, threads)
     ctx.exhaustive = False
     # ./check only widens the search when NO oracle violation was seen; the known bump finding is always seen, so
@@ -936,6 +1009,10 @@ def search(ctx):
     for fn_, ids in sorted(fam.items()):
         if len(ids) >= 2:
             seqs.append(ids + ids[::-1])
+    if 'parallel' in names or 'prange' in names:
+        # thread-count dependence may only show on rasters large enough to take a parallel code path
+        big = [d['id'] for d in cat if d['kw'].get('big')]
+        seqs.append(big + big)
     run_sequences(ctx, seqs, [1, 4, 16])
 
 
@@ -948,7 +1025,7 @@ def replay_case(ctx, case):
     d = seq[-1]
     ctx.case(dict(replay=True, fn=d['fn']))
     key = 'bump-unseeded-global-rng' if d['fn'] == 'bump.bump' else None
-    d1, d2, descr = r[-1]
+    d1, d2, descr = r[-1][0], r[-1][1], r[-1][2]
     ctx.traces += 1
     if d1 != d2:
         ctx.violation('oracle', 'repeating %s gives a different result (%s vs %s)' % (d['fn'], d1, d2), case, key=key)
